@@ -191,6 +191,14 @@ Case gen() {
   c.d["ml"] = G::chance(20) ? G::real(0.0, 1.0) : G::real(1.0, 5.0);
   if (G::chance(10)) c.d["ml"] = G::oneOf(std::vector<double>{1.0, 1.4142135623730951, 1.4142135623730949, 2.0, 100.0, 1e6});
   c.d["at"] = G::coin() ? 0.0 : G::real(0.05, 3.0);
+  if (G::chance(3) && R >= 1e5) {
+    // an explicit arc tolerance that is tiny against a large delta (arcs of thousands of steps); a library that fell back
+    // to its default tolerance here would leave a sag of 0.2% of delta, twice what the property allows
+    c.d["at"] = G::oneOf(std::vector<double>{1e-9, 1e-6, 1e-4, 5e-4, 9.9e-4, 1e-3, 0.01});
+    ad = G::real(3000.0, 30000.0);   // (the library caps an arc at pi*delta steps per turn: about 10^5 here)
+    c.d["delta"] = ad;
+    ST.count("tiny_arc_tolerance_large_delta");
+  }
   c.i["rev"] = G::range(0, 1);
   c.i["route"] = G::chance(40) ? 0 : G::range(1, 3);
   double kf = std::max(c.d["ml"], std::sqrt(2.0));
